@@ -1,6 +1,259 @@
-//! intty ops. Stub until the layer is built. Mirror of coq/Extract/Ops*.v
+//! intty ops (C15): mirror of coq/Extract/OpsIntTy.v
+//!
+//! 3101 lo_kind lo hi_kind hi ext      -> type chosen for `T ::= INTEGER (<lo>..<hi>[,...])`
+//! 3102 lo_kind lo hi_kind hi ext      -> text of the generated value_min()/value_max() accessors
+//! 3103 n (lo_kind lo hi_kind hi ext)* -> 3101 for n definitions in ONE module (batched)
+//! 3104 lo_kind lo hi_kind hi ext      -> MIN/MAX/MIN_T/MAX_T/EXTENSIBLE constants emitted by generate/walker.rs
+//!
+//! bound kind: 0 = literal value, 1 = MIN / MAX keyword, 2 = absent (both must be 2: plain `INTEGER`).
 use crate::I;
+use asn1rs_model::asn::Range;
+use asn1rs_model::generate::walker::AsnDefWriter;
+use asn1rs_model::generate::{Generator, RustCodeGenerator};
+use asn1rs_model::parse::Tokenizer;
+use asn1rs_model::rust::{Rust, RustType};
+use asn1rs_model::Model;
+use std::convert::TryFrom;
 
-pub fn run(_op: I, _a: &[I]) -> Vec<I> {
-    vec![-1]
+/// `INTEGER`, `INTEGER (a..b)` or `INTEGER (a..b,...)`; None = not a well-formed request
+fn type_text(a: &[I]) -> Option<String> {
+    let (lk, lo, hk, hi, ext) = (a[0], a[1], a[2], a[3], a[4]);
+    if lk == 2 || hk == 2 {
+        return if lk == 2 && hk == 2 && ext == 0 {
+            Some("INTEGER".to_string())
+        } else {
+            None
+        };
+    }
+    let l = match lk {
+        0 => lo.to_string(),
+        1 => "MIN".to_string(),
+        _ => return None,
+    };
+    let h = match hk {
+        0 => hi.to_string(),
+        1 => "MAX".to_string(),
+        _ => return None,
+    };
+    Some(format!(
+        "INTEGER ({}..{}{})",
+        l,
+        h,
+        if ext != 0 { ",..." } else { "" }
+    ))
+}
+
+fn module_text(types: &[String]) -> String {
+    let mut s = String::from("M DEFINITIONS AUTOMATIC TAGS ::= BEGIN\n");
+    for (i, t) in types.iter().enumerate() {
+        if types.len() == 1 {
+            s.push_str(&format!("T ::= {}\n", t));
+        } else {
+            s.push_str(&format!("T{} ::= {}\n", i, t));
+        }
+    }
+    s.push_str("END\n");
+    s
+}
+
+/// Tokenizer -> Model::try_from -> try_resolve -> to_rust
+fn front(text: &str) -> Result<Model<Rust>, Vec<I>> {
+    let tokens = Tokenizer::default().parse(text);
+    let model = Model::try_from(tokens).map_err(|_| vec![1, 1])?;
+    let model = model.try_resolve().map_err(|_| vec![1, 2])?;
+    Ok(model.to_rust())
+}
+
+fn opt<T: Into<I> + Copy>(v: Option<T>) -> [I; 2] {
+    match v {
+        Some(v) => [1, v.into()],
+        None => [0, 0],
+    }
+}
+
+fn fixed<T: Into<I> + Copy>(k: I, r: &Range<T>) -> Vec<I> {
+    vec![k, 1, (*r.min()).into(), 1, (*r.max()).into(), r.extensible() as I]
+}
+
+/// kind code + declared bounds as the crate's model holds them
+fn describe(t: &RustType) -> Option<Vec<I>> {
+    Some(match t {
+        RustType::U8(r) => fixed(0, r),
+        RustType::I8(r) => fixed(1, r),
+        RustType::U16(r) => fixed(2, r),
+        RustType::I16(r) => fixed(3, r),
+        RustType::U32(r) => fixed(4, r),
+        RustType::I32(r) => fixed(5, r),
+        RustType::U64(r) => {
+            let mut v = vec![6];
+            v.extend(opt(*r.min()));
+            v.extend(opt(*r.max()));
+            v.push(r.extensible() as I);
+            v
+        }
+        RustType::I64(r) => fixed(7, r),
+        _ => return None,
+    })
+}
+
+fn tuple_type<'a>(m: &'a Model<Rust>, name: &str) -> Option<&'a RustType> {
+    m.definitions.iter().find(|d| d.0 == name).and_then(|d| {
+        if let Rust::TupleStruct { r#type, .. } = &d.1 {
+            Some(r#type)
+        } else {
+            None
+        }
+    })
+}
+
+fn kind_of_name(s: &str) -> I {
+    match s.trim() {
+        "u8" => 0,
+        "i8" => 1,
+        "u16" => 2,
+        "i16" => 3,
+        "u32" => 4,
+        "i32" => 5,
+        "u64" => 6,
+        "i64" => 7,
+        _ => -1,
+    }
+}
+
+/// return type and body of `fn <name>(` in the generated source
+fn fn_ret_and_body(src: &str, name: &str) -> Option<(String, String)> {
+    let at = src.find(&format!("fn {}(", name))?;
+    let rest = &src[at..];
+    let open = rest.find('{')?;
+    let head = &rest[..open];
+    let ret = head.split("->").nth(1)?.trim().to_string();
+    let close = rest.find('}')?;
+    let body = rest[open + 1..close].trim().to_string();
+    Some((ret, body))
+}
+
+fn push_str(v: &mut Vec<I>, s: &str) {
+    v.push(s.chars().count() as I);
+    v.extend(s.chars().map(|c| c as I));
+}
+
+/// `const <name>: <ty> = <value>;` inside `impl ...numbers::Constraint<..> for ...`
+fn const_of(src: &str, name: &str) -> Option<(String, String)> {
+    let key = format!("const {}: ", name);
+    let at = src.find(&key)?;
+    let rest = &src[at + key.len()..];
+    let eq = rest.find(" = ")?;
+    let semi = rest.find(';')?;
+    Some((rest[..eq].to_string(), rest[eq + 3..semi].to_string()))
+}
+
+fn some_value(s: &str) -> Option<I> {
+    let s = s.trim();
+    let inner = s.strip_prefix("Some(")?.strip_suffix(')')?;
+    inner.parse::<I>().ok()
+}
+
+pub fn run(op: I, a: &[I]) -> Vec<I> {
+    match op {
+        3101 | 3102 | 3104 if a.len() == 5 => {
+            let Some(t) = type_text(a) else {
+                return vec![-1];
+            };
+            let model = match front(&module_text(&[t])) {
+                Ok(m) => m,
+                Err(e) => return e,
+            };
+            let Some(ty) = tuple_type(&model, "T") else {
+                return vec![-1];
+            };
+            match op {
+                3101 => {
+                    let Some(d) = describe(ty) else {
+                        return vec![-1];
+                    };
+                    let mut v = vec![0];
+                    v.extend(d);
+                    v
+                }
+                3102 => {
+                    let mut generator = RustCodeGenerator::default();
+                    generator.add_model(model.clone());
+                    let files = generator.to_string().unwrap();
+                    let src = &files[0].1;
+                    let (Some((rmin, bmin)), Some((rmax, bmax))) =
+                        (fn_ret_and_body(src, "value_min"), fn_ret_and_body(src, "value_max"))
+                    else {
+                        return vec![-1];
+                    };
+                    let mut v = vec![0, kind_of_name(&rmin), kind_of_name(&rmax)];
+                    push_str(&mut v, &bmin);
+                    push_str(&mut v, &bmax);
+                    v
+                }
+                _ => {
+                    let src = AsnDefWriter::stringify(&model);
+                    // restrict to the numbers::Constraint impl
+                    let Some(at) = src.find("numbers::Constraint<") else {
+                        return vec![-1];
+                    };
+                    let rest = &src[at..];
+                    let Some(end) = rest.find('}') else {
+                        return vec![-1];
+                    };
+                    let block = &rest[..end];
+                    let ty = block["numbers::Constraint<".len()..]
+                        .split('>')
+                        .next()
+                        .unwrap_or("");
+                    let mut v = vec![0, kind_of_name(ty)];
+                    for (n, want_ty) in [("MIN", "Option<i64>".to_string()), ("MIN_T", format!("Option<{}>", ty)),
+                                         ("MAX", "Option<i64>".to_string()), ("MAX_T", format!("Option<{}>", ty))] {
+                        match const_of(block, n) {
+                            None => v.extend([0, 0]),
+                            Some((t, val)) => {
+                                if t != want_ty {
+                                    return vec![-1];
+                                }
+                                match some_value(&val) {
+                                    Some(x) => v.extend([1, x]),
+                                    None => return vec![-1],
+                                }
+                            }
+                        }
+                    }
+                    match const_of(block, "EXTENSIBLE") {
+                        Some((_, val)) if val == "true" => v.push(1),
+                        Some((_, val)) if val == "false" => v.push(0),
+                        _ => return vec![-1],
+                    }
+                    v
+                }
+            }
+        }
+        3103 if !a.is_empty() && a[0] >= 1 && a.len() as I == 1 + 5 * a[0] => {
+            let n = a[0] as usize;
+            let mut types = Vec::with_capacity(n);
+            for i in 0..n {
+                match type_text(&a[1 + 5 * i..6 + 5 * i]) {
+                    Some(t) => types.push(t),
+                    None => return vec![-1],
+                }
+            }
+            let single = n == 1;
+            let model = match front(&module_text(&types)) {
+                Ok(m) => m,
+                Err(e) => return e,
+            };
+            let mut v = vec![0];
+            for i in 0..n {
+                let name = if single { "T".to_string() } else { format!("T{}", i) };
+                match tuple_type(&model, &name).and_then(describe) {
+                    Some(d) => v.extend(d),
+                    None => return vec![-1],
+                }
+            }
+            v
+        }
+        _ => vec![-1],
+    }
 }
